@@ -17,6 +17,17 @@ is substituted at its call sites (inlining bound: two rounds, i.e. a new helper 
   A  block with a result: like S but ending in `return <expr>`
      -> `t = helper(args)` / `return helper(args)` becomes the helper's statements followed by `t = <expr>` / `return <expr>`
 
+  R  function with several `return <expr>` nested in if/else only (never inside a loop / try / with), ending in a return
+     -> the body is restructured into if/else assignments of one result variable (statements after an `if` that returns are moved into
+        the branches that fall through); a statement that evaluates the call first (`x.extend(helper(a))`, `if not helper(a): ...`)
+        becomes those statements followed by the statement with the call replaced by the result variable.
+        Jump threading: when all results are the constants True/False and the call site is `if [not] helper(a): continue|break|return ..`
+        whose jump is taken for exactly the non-final results, every non-final `return` simply becomes that jump and the final one falls
+        through (`if key in seen: return False` in the helper is `if key in seen: continue` at the call site).
+  G  generator whose yields are all statements `yield <expr>` (no return value)
+     -> `for t in helper(a): BODY` becomes the generator's statements with every `yield e` replaced by `t = e; BODY`.  Only when BODY has no
+        `break` of that loop, and - if BODY has a `continue` of that loop - every yield is the last thing its own innermost loop does.
+
 Parameters are replaced by the argument expressions (arguments are names, attributes, constants or calls in practice; an argument
 with side effects would be duplicated - irrelevant for an analysis that executes nothing).  Locals of the helper are renamed
 `<name>__<helper>` so that they cannot capture names of the caller.  The helper's own definition stays in the tree.
@@ -106,15 +117,24 @@ class _Template:
         self.owner_cls, self.is_method, self.is_static = owner_cls, is_method, is_static
 
 
-def _classify(fn) -> Optional[Tuple[str, List[ast.stmt], Optional[ast.expr]]]:
-    """('E'|'S'|'A', statements, result expression)"""
-    if isinstance(fn, ast.AsyncFunctionDef) or _has(fn, (ast.Yield, ast.YieldFrom, ast.Await, ast.Global, ast.Nonlocal)):
+def _classify_ESAG(fn) -> Optional[Tuple[str, List[ast.stmt], Optional[ast.expr]]]:
+    """('E'|'S'|'A'|'G', statements, result expression)"""
+    if isinstance(fn, ast.AsyncFunctionDef) or _has(fn, (ast.YieldFrom, ast.Await, ast.Global, ast.Nonlocal)):
+        return None
+    if any(isinstance(n, (ast.FunctionDef, ast.AsyncFunctionDef, ast.ClassDef, ast.Lambda)) and n is not fn for n in ast.walk(fn)) and _has(fn, ast.Yield):
         return None
     if any(isinstance(n, (ast.FunctionDef, ast.AsyncFunctionDef, ast.ClassDef)) and n is not fn for n in ast.walk(fn)):
         return None  # helpers that define closures are left alone
     body = _body(fn)
     if not body or len(list(ast.walk(fn))) > 1500 or sum(1 for n in ast.walk(fn) if isinstance(n, ast.stmt)) > MAX_STMTS:
         return None
+    if _has(fn, ast.Yield):
+        # ---- form G: every yield is a statement, nothing is returned
+        ys = [n for n in ast.walk(fn) if isinstance(n, ast.Yield)]
+        stmts_y = [n for n in ast.walk(fn) if isinstance(n, ast.Expr) and isinstance(n.value, ast.Yield)]
+        if len(ys) != len(stmts_y) or any(y.value is None for y in ys) or _returns(body):
+            return None
+        return "G", body, None
     # ---- form E: assignments of plain names, guard returns, final return
     if isinstance(body[-1], ast.Return) and body[-1].value is not None:
         ok = True
@@ -166,6 +186,70 @@ def _classify(fn) -> Optional[Tuple[str, List[ast.stmt], Optional[ast.expr]]]:
     if tail is not None and tail.value is not None:
         return "A", stmts, tail.value
     return "S", stmts, None
+
+
+RES = "__result"
+
+
+def _classify(fn):
+    r = _classify_ESAG(fn)
+    if r is not None:
+        return r
+    if isinstance(fn, ast.AsyncFunctionDef) or _has(fn, (ast.Yield, ast.YieldFrom, ast.Await, ast.Global, ast.Nonlocal)):
+        return None
+    if any(isinstance(n, (ast.FunctionDef, ast.AsyncFunctionDef, ast.ClassDef)) and n is not fn for n in ast.walk(fn)):
+        return None
+    if len(list(ast.walk(fn))) > 1500 or sum(1 for n in ast.walk(fn) if isinstance(n, ast.stmt)) > MAX_STMTS:
+        return None
+    return _classify_R(fn)
+
+
+def _contains_return(s) -> bool:
+    return any(isinstance(n, ast.Return) for n in ast.walk(s))
+
+
+def _classify_R(fn):
+    """form R: ('R', original body, None) when returns sit only in if/else nests and the body ends in a return"""
+    body = _body(fn)
+    if not body or not isinstance(body[-1], ast.Return) or body[-1].value is None:
+        return None
+
+    def ok(stmts):
+        for s in stmts:
+            if isinstance(s, ast.Return):
+                if s.value is None:
+                    return False
+            elif isinstance(s, ast.If):
+                if not ok(s.body) or not ok(s.orelse):
+                    return False
+            elif _contains_return(s):
+                return False
+        return True
+    if not ok(body):
+        return None
+    return "R", body, None
+
+
+def _structure(stmts, res, budget):
+    """statements in which every `return e` is `res = e` and nothing follows an assignment of res on any path"""
+    out = []
+    for i, s in enumerate(stmts):
+        budget[0] -= 1
+        if budget[0] < 0:
+            return None
+        if isinstance(s, ast.Return):
+            out.append(ast.copy_location(ast.Assign(targets=[ast.Name(id=res, ctx=ast.Store())], value=s.value), s))
+            return out
+        if isinstance(s, ast.If) and _contains_return(s):
+            rest = stmts[i + 1:]
+            b = _structure(list(s.body) + copy.deepcopy(rest), res, budget)
+            o = _structure(list(s.orelse) + copy.deepcopy(rest), res, budget)
+            if b is None or o is None:
+                return None
+            out.append(ast.copy_location(ast.If(test=s.test, body=b or [ast.Pass()], orelse=o), s))
+            return out
+        out.append(s)
+    return out
 
 
 # ------------------------------------------------------------------ substitution
@@ -250,6 +334,7 @@ class _Inliner(ast.NodeTransformer):
         self.cls: List[ast.ClassDef] = []
         self.fn: List[ast.AST] = []
         self.uid = 0
+        self.res_used: Dict[str, int] = {}
 
     # -- context
     def visit_ClassDef(self, n):
@@ -314,12 +399,219 @@ class _Inliner(ast.NodeTransformer):
         res = sub.visit(copy.deepcopy(t.result)) if t.result is not None else None
         return stmts, res
 
+    # -- generators consumed by a for loop (form G)
+    @staticmethod
+    def _bound(body, kinds):
+        """statements of `kinds` that belong to the loop whose body is `body`"""
+        out = []
+
+        def walk(stmts):
+            for s in stmts:
+                if isinstance(s, kinds):
+                    out.append(s)
+                elif isinstance(s, (ast.For, ast.While, ast.AsyncFor)):
+                    walk(s.orelse)
+                elif isinstance(s, (ast.FunctionDef, ast.AsyncFunctionDef, ast.ClassDef)):
+                    continue
+                else:
+                    for f in ("body", "orelse", "finalbody"):
+                        walk(getattr(s, f, None) or [])
+                    for h in getattr(s, "handlers", None) or []:
+                        walk(h.body)
+        walk(body)
+        return out
+
+    @staticmethod
+    def _yields_in_tail(stmts, tail=False):
+        for i, s in enumerate(stmts):
+            t = tail and i == len(stmts) - 1
+            if isinstance(s, ast.Expr) and isinstance(s.value, ast.Yield):
+                if not t:
+                    return False
+            elif isinstance(s, (ast.For, ast.While)):
+                if not _Inliner._yields_in_tail(s.body, True) or not _Inliner._yields_in_tail(s.orelse, t):
+                    return False
+            elif isinstance(s, ast.If):
+                if not _Inliner._yields_in_tail(s.body, t) or not _Inliner._yields_in_tail(s.orelse, t):
+                    return False
+            elif isinstance(s, ast.With):
+                if not _Inliner._yields_in_tail(s.body, t):
+                    return False
+            elif _has(s, ast.Yield):
+                return False
+        return True
+
+    def _splice_gen(self, t: _Template, call: ast.Call, recv, loop: ast.For):
+        if loop.orelse or self._bound(loop.body, (ast.Break,)):
+            return None
+        if self._bound(loop.body, (ast.Continue,)) and not self._yields_in_tail(t.stmts):
+            return None
+        m = _bind(t, call, recv)
+        if m is None:
+            return None
+        loc = _locals_of(t.stmts, set(t.params))
+        ren = {x: f"{x}__{t.name.strip('_')}" for x in loc}
+        sub = _Subst(m, ren)
+        stmts = [sub.visit(copy.deepcopy(s)) for s in t.stmts]
+        for s_ in stmts:
+            for x in ast.walk(s_):
+                if hasattr(x, "lineno"):
+                    x.lineno = getattr(loop, "lineno", 0)
+                    x.end_lineno = getattr(loop, "end_lineno", x.lineno)
+
+        class Y(ast.NodeTransformer):
+            def visit_Expr(self_, n):
+                if isinstance(n.value, ast.Yield):
+                    tgt = copy.deepcopy(loop.target)
+                    return [ast.copy_location(ast.Assign(targets=[tgt], value=n.value.value), loop)] + copy.deepcopy(loop.body)
+                return n
+        out = []
+        for s_ in stmts:
+            r = Y().visit(s_)
+            out.extend(r if isinstance(r, list) else [r])
+        return out
+
+    # -- several returns (form R)
+    def _res_name(self, t):
+        self.res_used[t.name] = self.res_used.get(t.name, 0) + 1
+        k = self.res_used[t.name]
+        return f"result__{t.name.strip('_')}" + ("" if k == 1 else f"_{k}")
+
+    def _instantiate(self, t: _Template, call, recv, at, stmts):
+        m = _bind(t, call, recv)
+        if m is None:
+            return None
+        loc = _locals_of(t.stmts, set(t.params))
+        ren = {x: f"{x}__{t.name.strip('_')}" for x in loc}
+        sub = _Subst(m, ren)
+        out = [sub.visit(copy.deepcopy(s)) for s in stmts]
+        for s_ in out:
+            for x in ast.walk(s_):
+                if hasattr(x, "lineno"):
+                    x.lineno = getattr(at, "lineno", 0)
+                    x.end_lineno = getattr(at, "end_lineno", x.lineno)
+        return out
+
+    def _thread_jump(self, t: _Template, call, recv, st: ast.If, negated: bool):
+        """if [not] helper(): JUMP  ->  helper body with the non-final returns replaced by JUMP"""
+        rets = [n for s_ in t.stmts for n in ast.walk(s_) if isinstance(n, ast.Return)]
+        final = t.stmts[-1]
+        if not all(isinstance(r.value, ast.Constant) and isinstance(r.value.value, bool) for r in rets):
+            return None
+        jump_on = not negated
+        if final.value.value == jump_on or any(r.value.value != jump_on for r in rets if r is not final):
+            return None
+        body = self._instantiate(t, call, recv, st, t.stmts[:-1])
+        if body is None:
+            return None
+        jump = st.body[0]
+
+        class J(ast.NodeTransformer):
+            def visit_Return(self_, n):
+                return ast.copy_location(copy.deepcopy(jump), n)
+        return [J().visit(s_) for s_ in body]
+
+    @staticmethod
+    def _evaluated_first(root: ast.AST, call: ast.Call) -> bool:
+        """the call is evaluated unconditionally and before any other call of the expression"""
+        path = []
+
+        def find(n, acc):
+            if n is call:
+                path.extend(acc)
+                return True
+            for c in ast.iter_child_nodes(n):
+                if find(c, acc + [n]):
+                    return True
+            return False
+        if not find(root, []):
+            return False
+        for par, child in zip(path, path[1:] + [call]):
+            if isinstance(par, (ast.Lambda, ast.ListComp, ast.SetComp, ast.DictComp, ast.GeneratorExp, ast.NamedExpr)):
+                return False
+            if isinstance(par, ast.BoolOp) and par.values[0] is not child:
+                return False
+            if isinstance(par, ast.IfExp) and par.test is not child:
+                return False
+        inside = set(map(id, ast.walk(call)))
+        anc = set(map(id, path))
+        for n in ast.walk(root):
+            if isinstance(n, (ast.Call, ast.Await, ast.Yield, ast.YieldFrom, ast.NamedExpr, ast.ListComp, ast.SetComp, ast.DictComp, ast.GeneratorExp)) \
+                    and id(n) not in inside and id(n) not in anc:
+                return False
+        return True
+
+    def _hoist(self, st):
+        """statement with one call of a form-R helper evaluated first -> structured helper statements + the statement reading the result variable"""
+        roots = [st.test] if isinstance(st, ast.If) else ([st] if isinstance(st, (ast.Expr, ast.Assign, ast.AugAssign, ast.AnnAssign, ast.Return)) else [])
+        if not roots:
+            return None
+        root = roots[0]
+        cands = []
+        for n in ast.walk(root):
+            if isinstance(n, ast.Call):
+                t, recv = self._lookup(n)
+                if t is not None and t.form == "R" and not self._inside_own_body(t):
+                    cands.append((n, t, recv))
+        if len(cands) != 1:
+            return None
+        call, t, recv = cands[0]
+        if not self._evaluated_first(root, call):
+            return None
+        res = self._res_name(t)
+        structured = _structure(copy.deepcopy(t.stmts), RES, [200])
+        if structured is None:
+            return None
+        stmts = self._instantiate(t, call, recv, st, structured)
+        if stmts is None:
+            return None
+        for s_ in stmts:
+            for x in ast.walk(s_):
+                if isinstance(x, ast.Name) and x.id in (RES, f"{RES}__{t.name.strip('_')}"):
+                    x.id = res
+
+        class R(ast.NodeTransformer):
+            def visit_Call(self_, n):
+                if n is call:
+                    return ast.copy_location(ast.Name(id=res, ctx=ast.Load()), n)
+                return self_.generic_visit(n)
+        if isinstance(st, ast.If):
+            st.test = R().visit(st.test)
+        else:
+            st = R().visit(st)
+        return stmts + [st]
+
     def _block(self, body):
         out = []
         for st in body:
             st = self.visit(st)
             repl = None
             call = None
+            if isinstance(st, ast.For) and isinstance(st.iter, ast.Call):
+                t, recv = self._lookup(st.iter)
+                if t is not None and t.form == "G" and not self._inside_own_body(t):
+                    repl = self._splice_gen(t, st.iter, recv, st)
+                    if repl is not None:
+                        self.count += 1
+                        out.extend(repl)
+                        continue
+            if isinstance(st, ast.If) and not st.orelse and len(st.body) == 1 and isinstance(st.body[0], (ast.Continue, ast.Break, ast.Return)):
+                test, neg = st.test, False
+                if isinstance(test, ast.UnaryOp) and isinstance(test.op, ast.Not):
+                    test, neg = test.operand, True
+                if isinstance(test, ast.Call):
+                    t, recv = self._lookup(test)
+                    if t is not None and t.form == "R" and not self._inside_own_body(t):
+                        repl = self._thread_jump(t, test, recv, st, neg)
+                        if repl is not None:
+                            self.count += 1
+                            out.extend(repl)
+                            continue
+            hoisted = self._hoist(st)
+            if hoisted is not None:
+                self.count += 1
+                out.extend(hoisted)
+                continue
             if isinstance(st, ast.Expr) and isinstance(st.value, ast.Call):
                 call, kind = st.value, "expr"
             elif isinstance(st, ast.Assign) and isinstance(st.value, ast.Call):
